@@ -483,8 +483,16 @@ def h_get_symbol(eng):
     eng.prove("symbol.registered_under_the_flat_name", z3.BoolVal(kn.keys == [name] and kn.vals[0] is r))
 
 
-HARNESSES = [("Model._expand_vectors", h_expand), ("lemma: reshape/transpose index", h_index_lemma), ("Generator.get_symbol: shape bookkeeping", h_get_symbol)]
-EXPECTED_COVER = {"expand.done", "lemma.done", "symbol.created", "symbol.rejected"}
+def h_derivative_symbol_of_a_matrix(eng):
+    """Generator.get_derivative on a 2-D variable (whole and indexed): the derivative symbol has the variable's own rows x columns
+    and Modelica shape -- _expand_vectors lays the scalars of der(M) out by that shape, so a derivative symbol of another layout
+    would be renamed to other elements than its state.  (C10's contract of the function, on a 2 x 3 variable.)"""
+    from contracts import C10
+    C10.h_get_derivative(eng, size=(2, 3), mshape=((2, 3),))
+
+
+HARNESSES = [("Generator.get_derivative: derivative symbol of a 2-D variable", h_derivative_symbol_of_a_matrix), ("Model._expand_vectors", h_expand), ("lemma: reshape/transpose index", h_index_lemma), ("Generator.get_symbol: shape bookkeeping", h_get_symbol)]
+EXPECTED_COVER = {"expand.done", "lemma.done", "symbol.created", "symbol.rejected", "der.constant", "der.symbol", "der.indexed"}
 BOUNDED = True
 LEVEL = "proof"
 TRUSTED = ["pyvc VC generator", "z3 5.1.0", "np.ndindex enumerates index tuples in row-major order; CasADi reshape is column-major, x[i, j] / x[(i, j)] selects element (i, j)",
